@@ -109,6 +109,9 @@ def fail(kind, msg, xml=None, extra=None):
     rep.violation("impl-vs-spec", f"{kind}: {msg}", {"kind": kind, "xml": (xml or "")[:8000], **(extra or {})})
 
 
+from kskm.common.config_misc import RequestPolicy
+from kskm.signer.policy import check_last_skr_and_new_skr
+PREV_RESP = [None]
 for i in range(30 * SCALE):
     nb = 1 + i % 9
     zsl = [[R.choice(ZS)] + ([R.choice(ZS[:4])] if R.random() < 0.4 else []) for _ in range(nb)]
@@ -143,6 +146,10 @@ for i in range(30 * SCALE):
         count("emitted-skr")
         continue
     resp = rk[1]
+    # the tool compares the new SKR with the previous one between signing and writing (whatever the verdict, the response stays what was signed)
+    if PREV_RESP[0] is not None:
+        vlib.run_impl(check_last_skr_and_new_skr, PREV_RESP[0], resp, RequestPolicy())
+    PREV_RESP[0] = resp
     r = vlib.run_impl(skr_to_xml, resp)
     n_skr += 1
     count("emitted-skr")
